@@ -1,4 +1,16 @@
-From FB.Proofs Require Import SimB7 SimB8 HashMemoInv CmpLaws.
-About post1. About newt. About sem_ok. About sem_okl. About node_sem. About fresh. About go_corr. About fresh_read_of.
-About subs_ok. About subs_post. About file_rec_ok. About sub_rec_ok.
-Check hx_HInv. Check is_op_cached_hxf. Print HashOk.
+From Coq Require Import List String Ascii NArith ZArith Bool Arith Lia.
+From FB.Base Require Import PyVal Fs.
+From FB.Gen Require Import JsonUtilGen.
+From FB.Spec Require Import JsonSpec Prog Ref Oracle Faithful.
+From FB.Model Require Import Types Monad CreatedFiles BuildDirs SimpleOps Builder Persist Build Run Frame Dsl Core CoreOracle.
+From FB.Proofs Require Import FsLemmas ViewDefs ViewK2 ViewK3 SimA0 SimAEx SimB1 SimC0 SimCEx SimGEx SimJ4.
+Import ListNotations.
+Open Scope string_scope.
+Open Scope list_scope.
+Definition okcH_at (cf : path) (nm : string) (vers : pyval) (w : world) : bool :=
+  match sanitize vers with
+  | Some svers => okcHb (w_clock w) (old_cache_of (w_fs w) cf nm svers)
+  | None => false
+  end.
+Import ExH.
+Eval vm_compute in map (fun w => (okc_at CF "n" V w, okcH_at CF "n" V w)) [w0; w1; w2'; w3].
